@@ -1,7 +1,7 @@
 """C06 — backings are persistent: snapshots and copies never change."""
 from hist import *  # noqa
 
-THEOREMS = ["C06_heap_frame", "C06_setter_extends", "C06_root_frame", "C06_copy_isolated", "C06_copy_has_no_hook", "C06_only_the_chain_changes"]
+THEOREMS = ["C06_heap_frame", "C06_setter_extends", "C06_root_frame", "C06_copy_isolated", "C06_copy_has_no_hook", "C06_only_the_chain_changes", "C06_forest_copy", "C06_off_trail_value_kept"]
 PARTIAL = ["C06_only_the_chain_changes covers commands through hooked views with a VALID hook chain (any depth): only the cells of that chain change, so never the view a copy was taken from; for stale chains (slot popped away / union switched) the model theorem does not apply and the claim rests on the correspondence and the snapshot oracle; node-level immutability is C06_heap_frame"]
 COQ_IMPORTS = ["RM.Types", "RM.ModelStore", "RMR.RunH"]
 COQ_FN = "RunH.run"
